@@ -48,6 +48,24 @@ def cases(ctx):
         # *= through a constant that a later label shadows
         out.append({"kind": "shadow-org", "rom": rom, "trace": True, "spec": {"t": "trace"},
                     "src": f"*={org:#08x}\nc := {org + 0x100:#x}\n{{\n*= c\nnop\nc:\n}}\nl2:\n.dl l2\n"})
+    # a name reused in an inner scope: every use, and the exported scope.name, is the address of ITS definition
+    for rom, org in (("low", 0x028000), ("high", 0x410000)):
+        for outer_wrap in (".scope menu {\n%s}\n.dl menu.x\n", "{\n%s}\n", "%s"):
+            for inner_wrap in ("{\n%s}\n", ".macro zz_in() {\n%s}\nzz_in()\n", ".scope sub {\n%s}\n.dl sub.NAME\n"):
+                for first in (True, False):
+                    def prog(name):
+                        inner = inner_wrap.replace("NAME", name) % f"nop\n{name}:\n.db 1\n.dl {name}\n"
+                        body = ("x:\nnop\n" + inner) if first else (inner + "nop\nx:\n")
+                        return f"*={org:#08x}\n" + outer_wrap % (body + ".dl x\njmp.w x\n")
+                    out.append({"kind": "reuse-in-scope", "rom": rom, "src": prog("x"), "twin_src": prog("yy"),
+                                "spec": {"t": "twin", "labels": False}})
+    # an included patch in the middle of a run does not move what follows it
+    ips = list(b"PATCH" + (0x20000).to_bytes(3, "big") + (4).to_bytes(2, "big") + b"\xde\xad\xbe\xef" + b"EOF")
+    for rom, org in (("low", 0x018000), ("high", 0x410000)):
+        for spec in ({"t": "trace"}, {"t": "blocks", "high": rom == "high"}):
+            out.append({"kind": "ips-in-run", "rom": rom, "trace": True, "spec": spec, "files": {"other.ips": ips},
+                        "src": f"*={org:#08x}\nstart:\n.db 0xA1\nlda.w 0x1234\nmid:\n.db 0xA2\njsr.w after\n"
+                               ".include_ips 'other.ips', 0\nafter:\n.db 0xA3\nrts\nlast:\n.db 0xA4\n.dl start\n.dl last\n"})
     # bank crossing
     for rom, org in (("low", 0x00FFFD), ("low", 0x80FFFE), ("high", 0x40FFFC), ("high", 0xC1FFFF)):
         out.append({"kind": "bank-cross", "rom": rom, "trace": True, "spec": {"t": "trace"},
